@@ -69,6 +69,18 @@ class _LineInterp(Interp):
         return super().call_method(name, args, kwargs)
 
 
+def _re_arg(a):
+    """a constant argument of re.compile: a literal, re.<FLAG>, or flags joined with `|` (None: not of that form)"""
+    if isinstance(a, ast.Constant):
+        return a.value
+    if isinstance(a, ast.Attribute) and isinstance(a.value, ast.Name) and a.value.id == "re" and isinstance(getattr(re, a.attr, None), re.RegexFlag):
+        return getattr(re, a.attr)
+    if isinstance(a, ast.BinOp) and isinstance(a.op, ast.BitOr):
+        l, r = _re_arg(a.left), _re_arg(a.right)
+        return None if l is None or r is None or isinstance(l, str) or isinstance(r, str) else l | r
+    return None
+
+
 class LineMachine:
     def __init__(self, ctx):
         self.ctx = ctx
@@ -95,10 +107,10 @@ class LineMachine:
                     and isinstance(n.targets[0].value, ast.Name) and n.targets[0].value.id == "self":
                 v = n.value
                 name = n.targets[0].attr
-                if isinstance(v, ast.Call) and ast.unparse(v.func) == "re.compile" and v.args and all(isinstance(a, ast.Constant) for a in v.args) \
-                        and not v.keywords:
+                if isinstance(v, ast.Call) and ast.unparse(v.func) == "re.compile" and v.args and all(_re_arg(a) is not None for a in v.args) \
+                        and all(k.arg == "flags" and _re_arg(k.value) is not None for k in v.keywords):
                     try:
-                        self.consts[name] = ("regex", re.compile(*[a.value for a in v.args]))
+                        self.consts[name] = ("regex", re.compile(*[_re_arg(a) for a in v.args], **{k.arg: _re_arg(k.value) for k in v.keywords}))
                     except re.error as e:
                         raise AnalysisError(f"Parser.__init__: regex of self.{name} does not compile: {e}")
                 elif isinstance(v, ast.Constant):
